@@ -684,7 +684,9 @@ def reaching_defs(cfg):
             both[k] = both.get(k, frozenset()) | v
         for s, _l in n.succ:
             old = IN[s.id]
-            out = both if _l == 'exc' else cur
+            # (leaving a for loop through `done` binds nothing: the target keeps whatever reached the loop head - the
+            # definition before the loop when the body never ran, the last iteration's otherwise; both are in IN)
+            out = both if _l == 'exc' else (pre if (n.kind == 'for' and _l == 'done') else cur)
             if old is None:
                 new = dict(out)
             else:
